@@ -83,7 +83,7 @@ CLAIMED = {
         "specified and mutually consistent, start_index / integer type / dimension order kept in the written file, and "
         "select_variables leaving every polygon identical. The thorough tier additionally model-checks the composed machine "
         "spec/EmsSystem.tla (sessions mixing access / copy / make, save, load and apply masks / select variables / in-place "
-        "modification / save / reopen on DERIVED datasets) for base worlds of every detectable convention and replays TLC-emitted "
+        "modification / save / reopen / point lookup / single-cell selection / point extraction under each missing-point policy / triangulation on DERIVED datasets) for base worlds of every detectable convention and replays TLC-emitted "
         "sessions on real datasets, validating after every action the produced dataset and the binding of every live dataset "
         "(Trace_System).",
    note="Derived (not stored) CF bounds are outside the geometry clause; edge tables need edge-node connectivity to have a defined numbering; plain ArakawaC is re-bound by hand.",
@@ -205,6 +205,8 @@ HARVEST["C11"] = (" Thorough tier also shows with Apalache that the binding inva
 for _pid in ("C01", "C02", "C03", "C04", "C05", "C06", "C07", "C08", "C09", "C12", "C13", "C14", "C15", "C17", "C18", "C19"):
     HARVEST[_pid] = HARVEST.get(_pid, "") + (" Every generated world is concretised in varying ways (in memory / lazily reopened netCDF file / dask-backed / "
                                              "emsarray.open_dataset; other dimension and coordinate names; x-before-y dimension order; on-disk encodings).")
+HARVEST["C17"] += (" Both tiers also save datasets DERIVED by depth normalisation (coordinate stored narrower than its bounds, file-held) and "
+                   "have TLC compare what is read back with the specification's normalised dataset (Trace_Depth.SavedAsHeld, sub-check C17D).")
 PENDING_REASON = "check not built yet in this round (specification and binding under construction; see DESIGN.md section 13)"
 props = [json.loads(l) for l in (V / "properties.jsonl").read_text().splitlines() if l.strip()]
 checks, na = [], []
